@@ -71,6 +71,9 @@ func (o *UntypedRequestBinder) Bind(request *http.Request, routeParams RoutePara
 			if tpe == nil {
 				if param.Schema.Type.Contains(typeArray) {
 					tpe = reflect.TypeOf([]interface{}{})
+				} else if param.Schema.Type.Contains(typeString) && param.Schema.Format == "" {
+					// a body declared as a plain string (text/plain payloads) is bound to a string, not to a map
+					tpe = reflect.TypeOf("")
 				} else {
 					tpe = reflect.TypeOf(map[string]interface{}{})
 				}
